@@ -81,7 +81,8 @@ class Index:
                 if (self.sv.in_annotations and a) or (not self.sv.in_annotations and s) or (self.sv.storage == 'smart' and (a or s)):
                     val = (a or s).strip()
                     if out and out[-1][1] == val and not any(
-                            e['k'] in ('call', 'ret') and e.get('uid') == uid and out[-1][0].g < e['g'] < r.g for e in self.w.events):
+                            e['k'] in ('call', 'ret') and e.get('uid') == uid and e.get('kind') in ('create', 'update', 'delete', 'resume', 'field', 'sub')
+                            and out[-1][0].g < e['g'] < r.g for e in self.w.events):
                         continue   # the second half (main + /status) of one and the same patching
                     out.append((r, val))
         return [r for r, _ in out]
